@@ -210,7 +210,13 @@ class Run:
         lock = os.path.join(d, "Cargo.lock")
         if not os.path.exists(lock):
             sh(["cp", os.path.join(self.repo, "Cargo.lock"), lock])
-        env = {"CARGO_TARGET_DIR": os.path.join(BUILD, "target"), "RUSTFLAGS": "--cfg " + GUARD}
+        flags = "--cfg " + GUARD
+        try:
+            if "verif_set_bitbuf_capacity" in open(os.path.join(self.repo, "webpsan", "src", "lib.rs")).read():
+                flags += " --cfg verif_caphook"      # the C19 capacity hook is present in the tree under test
+        except OSError:
+            pass
+        env = {"CARGO_TARGET_DIR": os.path.join(BUILD, "target"), "RUSTFLAGS": flags}
         cmd = ["cargo", "build", "--release", "--offline", "-q", "--bin", "h_" + area]
         rc, out, err = sh(cmd, cwd=d, timeout=1500, env=env)
         if rc != 0:
